@@ -67,6 +67,9 @@ def run(ctx, focus):
         # Destroy in every lifecycle history (async loggers): must return, must not panic, whatever came before
         life = ctx.tlc("LogSystem", "MC_LogSystem_life_q", timeout=1500)
         rep.absorb(ctx.vh_sharded("lifecycle", life.emitted, extra=["--mode", "async"], shards=8, timeout=1500))
+        # Destroy as a sequence of steps over several asynchronous loggers that share appenders
+        from checks import shutdown_common
+        shutdown_common.run(ctx, rep)
     rep.exhaustive = True
     rep.rule = ("AsyncLogger.tla model-checked for each policy (2 producers, capacity 2, safety + Stop liveness + refinement of "
                 "AbstractFifo.tla, a lossy FIFO, and implementation of the counter abstraction AsyncCounters.tla whose inductive "
@@ -85,7 +88,10 @@ def run(ctx, focus):
                      "counted discards) is read back from the target, /proc/self/fd holds nothing under the log "
                      "directory, appenders tolerate a second Stop; Stop with the worker blocked on a slow appender for 5 s (12 s "
                      "thorough) must not return early; Rolling.tla behaviours replayed with /proc/self/fd compared after every step "
-                     "(FdBound, FdZeroAfterStop); all lifecycle histories of length 4 with asynchronous loggers (Destroy returns, no panic).")
+                     "(FdBound, FdZeroAfterStop); all lifecycle histories of length 4 with asynchronous loggers (Destroy returns, no panic); "
+                     "Shutdown.tla (loggers drain before the appenders they reference stop; the reverse order must violate NoLateWrite): "
+                     "every scenario of reference table x accepted items x items still queued when Destroy begins, replayed on "
+                     "asynchronous loggers sharing recording, file and rolling-file appenders.")
     rep.assumptions = ["TLC/SANY", "Go toolchain", "gated recording appender plugin (worker parked inside Append/Write)",
                        "negative observations ('still blocked') use a bounded wait on behaviour a correct implementation shows forever",
                        "no log call concurrent with Stop (premise of the property)"]
